@@ -187,7 +187,8 @@ def run(ctx):
                 if minv > 0:
                     rows.append(("version<%d" % minv, RC("version", 0, minv - 1), lambda p: outcome_str(p.outcome) == "return None", "None"))
                 rows.append(("version≥%d" % minv, RC("version", minv, 255),
-                             lambda p, kind=kind: outcome_str(p.outcome) == "return Some(Payload::new(version, flags, %s))" % kind,
+                             lambda p, kind=kind: outcome_str(p.outcome) in ("return Some(Payload::new(version, flags, %s))" % kind,
+                                                                          "return Some(Payload::new(version, flags, payload))"),
                              "Some(Payload::new(version, flags, payload))"))
                 K.check_regions(ctx, "R-REG", "new_if_supported[%s]" % kind, paths, it, rows, nb.loc, allow_opaque=True, path_filter=flt)
     eb = f.body(PDU + "EndOfData::new")
